@@ -398,13 +398,16 @@ class Model(Object):
         new._contexts = []
         new.notes = deepcopy(self.notes)
         new.annotation = deepcopy(self.annotation)
+        new._compartments = copy(self._compartments)
 
         new.metabolites = DictList()
         do_not_copy_by_ref = {"_reaction", "_model"}
         for metabolite in self.metabolites:
             new_met = metabolite.__class__()
             for attr, value in metabolite.__dict__.items():
-                if attr not in do_not_copy_by_ref:
+                if attr in ("notes", "_annotation"):
+                    new_met.__dict__[attr] = deepcopy(value)
+                elif attr not in do_not_copy_by_ref:
                     new_met.__dict__[attr] = copy(value) if attr == "formula" else value
             new_met._model = new
             new.metabolites.append(new_met)
@@ -413,7 +416,9 @@ class Model(Object):
         for gene in self.genes:
             new_gene = gene.__class__(None)
             for attr, value in gene.__dict__.items():
-                if attr not in do_not_copy_by_ref:
+                if attr in ("notes", "_annotation"):
+                    new_gene.__dict__[attr] = deepcopy(value)
+                elif attr not in do_not_copy_by_ref:
                     new_gene.__dict__[attr] = (
                         copy(value) if attr == "formula" else value
                     )
@@ -425,7 +430,9 @@ class Model(Object):
         for reaction in self.reactions:
             new_reaction = reaction.__class__()
             for attr, value in reaction.__dict__.items():
-                if attr not in do_not_copy_by_ref:
+                if attr in ("notes", "_annotation"):
+                    new_reaction.__dict__[attr] = deepcopy(value)
+                elif attr not in do_not_copy_by_ref:
                     new_reaction.__dict__[attr] = copy(value)
             new_reaction._model = new
             new.reactions.append(new_reaction)
@@ -443,7 +450,9 @@ class Model(Object):
         for group in self.groups:
             new_group: Group = group.__class__(group.id)
             for attr, value in group.__dict__.items():
-                if attr not in do_not_copy_by_ref:
+                if attr in ("notes", "_annotation"):
+                    new_group.__dict__[attr] = deepcopy(value)
+                elif attr not in do_not_copy_by_ref:
                     new_group.__dict__[attr] = copy(value)
             new_group._model = new
             new.groups.append(new_group)
